@@ -513,7 +513,98 @@ def r4b(ctx):
     ctx.check("R10.4", "network-count-users", len(users) >= 1, "no-user-of-Layer::parameters", c.loc(fn), "Layer::parameters is what the network reports (%s)" % ",".join(sorted(users)))
 
 
+def _poly(t):
+    """polynomial normal form of an integer-valued E6 term: {sorted tuple of atom reprs: coefficient} (products distributed; len(X) is one atom per sequence)"""
+    from .. import e6
+    if isinstance(t, tuple) and t:
+        if t[0] == "lit":
+            v = str(t[1]).replace("_", "").replace("usize", "")
+            if v.isdigit():
+                return {(): int(v)} if int(v) else {}
+        if t[0] == "bin" and t[1] in ("Add", "Sub"):
+            a, b = _poly(t[2]), _poly(t[3])
+            out = dict(a)
+            for k, v in b.items():
+                out[k] = out.get(k, 0) + (v if t[1] == "Add" else -v)
+                if out[k] == 0:
+                    del out[k]
+            return out
+        if t[0] == "bin" and t[1] == "Mul":
+            a, b = _poly(t[2]), _poly(t[3])
+            out = {}
+            for k1, v1 in a.items():
+                for k2, v2 in b.items():
+                    k = tuple(sorted(k1 + k2))
+                    out[k] = out.get(k, 0) + v1 * v2
+                    if out[k] == 0:
+                        del out[k]
+            return out
+        if t[0] == "un" and t[1] == "Deref":
+            return _poly(t[2])
+        if t[0] == "cast" and len(t) == 3 and t[2] in ("usize", "u64"):
+            return _poly(t[1])
+        if t[0] == "call" and t[1].rsplit("::", 1)[-1] == "len" and len(t[2]) == 1:
+            return {(repr(("len", e6.strip_upd(t[2][0]))),): 1}
+    return {(repr(t),): 1}
+
+
+def r4c(ctx):
+    """every layer kind reports exactly the number of parameter elements it holds: dense = inputs*outputs (+ outputs iff it has a bias),
+    (de)convolution = number of kernels x elements of one kernel (channels x height x width of the stored tensor)"""
+    from .. import e6
+    c = ctx.crate
+    SELF = ("p", "self")
+    fn = ctx.fn("dense::Dense::parameters")
+    E = e6.Exec(c, fn)
+    live = [p for p in E.run_fn() if p.exit is None or p.exit[0] == "return"]
+    I = repr(("payload", ("field", SELF, "inputs"), "tensor::Shape::Single", 0))
+    O = repr(("payload", ("field", SELF, "outputs"), "tensor::Shape::Single", 0))
+    seen = set()
+    ok = bool(live)
+    why = ""
+    for p in live:
+        val = p.val if p.exit is None else p.exit[1]
+        hasb = None
+        for (t, pol) in p.pc:
+            if e6.is_call(t, "is_some", 1) and e6.is_call(t, "is_some", 1)[0] == ("field", SELF, "bias"):
+                hasb = pol
+            if e6.is_call(t, "is_none", 1) and e6.is_call(t, "is_none", 1)[0] == ("field", SELF, "bias"):
+                hasb = not pol
+            if isinstance(t, tuple) and t[0] == "is" and t[1] == ("field", SELF, "bias"):
+                hasb = pol if t[2] == "Option::Some" else (not pol)
+        want = {tuple(sorted((I, O))): 1}
+        if hasb:
+            want[(O,)] = 1
+        if hasb is None:
+            ok, why = False, "a result does not depend on whether the layer has a bias"
+            continue
+        seen.add(hasb)
+        if _poly(val) != want:
+            ok, why = False, "with%s bias the count is %s" % ("" if hasb else "out", e6.show(val, 3)[:100])
+    ctx.check("R10.4", "layer-count:Dense", ok and seen == {True, False}, "dense-parameter-count:" + short(why, 70), c.loc(fn), "inputs * outputs + (outputs if bias)",
+              "Dense::parameters: %s; a dense layer holds inputs*outputs weights and one bias per output" % why)
+    for adt in ("convolution::Convolution", "deconvolution::Deconvolution"):
+        fn = ctx.fn(adt + "::parameters")
+        E = e6.Exec(c, fn)
+        live = [p for p in E.run_fn() if p.exit is None or p.exit[0] == "return"]
+        K = ("field", SELF, "kernels")
+        D0 = ("field", ("idx", K, ("lit", "0")), "data")
+        P = ("payload", D0, "tensor::Data::Triple", 0)
+        want = {tuple(sorted([repr(("len", K)), repr(("len", P)), repr(("len", ("idx", P, ("lit", "0")))), repr(("len", ("idx", ("idx", P, ("lit", "0")), ("lit", "0"))))])): 1}
+        ok, why, n = bool(live), "", 0
+        for p in live:
+            val = p.val if p.exit is None else p.exit[1]
+            tri = [pol for (t, pol) in p.pc if isinstance(t, tuple) and t[0] == "is" and t[1] == D0 and t[2] == "tensor::Data::Triple"]
+            if tri and tri[0]:
+                n += 1
+                if _poly(val) != want:
+                    ok, why = False, "the count is %s" % e6.show(val, 3)[:120]
+        ctx.check("R10.4", "layer-count:" + adt.split("::")[-1], ok and n >= 1, "kernel-parameter-count:" + short(why, 70), c.loc(fn),
+                  "kernels.len() * channels * height * width of a kernel", "%s::parameters: %s" % (adt, why))
+
+
 def run(ctx):
+    ctx.guard("R10.4", "layer-counts", r4c, ctx)
     ctx.guard("R10.4", "network-count", r4b, ctx)
     ctx.guard("R10.1", "create", r1, ctx)
     ctx.guard("R10.2", "update", r2, ctx)
